@@ -59,8 +59,22 @@ func cmdBackoff() {
 		add(p + 1)
 	}
 	sort.Ints(attempts)
+	prev := int64(0)
 	for _, a := range attempts {
-		fmt.Printf("backoff %d %d\n", a, int64(mpx.VerifReconnectTimeout(a)))
+		d := int64(mpx.VerifReconnectTimeout(a))
+		line := fmt.Sprintf("backoff %d %d", a, d)
+		// the property itself, independent of the model: 25 ms <= wait <= 1 s for every attempt >= 2,
+		// never decreasing with the attempt number
+		if a >= 2 && (d < 25e6 || d > 1e9) {
+			line += " VIOL backoff-out-of-range"
+		}
+		if a >= 3 && d < prev {
+			line += " VIOL backoff-decreases"
+		}
+		if a >= 2 {
+			prev = d
+		}
+		fmt.Println(line)
 	}
 }
 
@@ -78,6 +92,17 @@ func cmdScen(seedS, tier string) int {
 	rnd := hx.NewRand(hx.NewRand(seed).U64())
 	violRuns := 0
 	kinds := map[string]int{}
+	// deterministic replay of one interleaving: Close while a dial has just returned
+	for _, mode := range []mpx.ClientMode{mpx.ClientMode_OnDemand, mpx.ClientMode_AutoConnect} {
+		line, viol := runCloseDuringDial(mode)
+		fmt.Println(line)
+		if len(viol) > 0 {
+			violRuns++
+			for _, v := range viol {
+				kinds[kind(v)]++
+			}
+		}
+	}
 	for i := 0; i < runs; i++ {
 		derived := rnd.U64() >> 1 // printed in the line, `mpxclient one <derived>` replays the run
 		line, viol := runOne(i, derived, 6)
